@@ -299,7 +299,9 @@ class Checker:
                     out.append((f"C09|altered|{f.type}|{a['cls']}|{d.key}/{f.id}",
                                 f"{f.id}: {a['cls']} value {float(a['target'])!r} encoded as raw {u:#x} = {float(got)!r} (resolution {float(f.res)})", case))
         # library decode agrees when every value is inside the database range
-        if all_db and not out:
+        if all_db and not out and canboat.db().select(d.pgn, payload) is not d:
+            ctx.klass("decode_back_skipped_sibling_selected")     # non-match fields happen to carry a sibling's match values (C08 decides that)
+        elif all_db and not out:
             try:
                 back = self.dec.decode_basic_string(gen.basic_string(d.pgn, payload, max(len(data), 1)), already_combined=True)
             except Exception as e:
